@@ -87,6 +87,20 @@ PROPS = {
         "trusted_base": ["Coq.Floats.SpecFloat (prec 53, emax 1024) as the semantics of Rust f64 addition/division/comparison; Iterator::sum::<f64>() folds from -0.0"],
         "assumptions": ["durations >= 1 ms; retention caps >= 1; timestamps below 2^62 so start+duration and now+1 do not overflow u64"],
     },
+    "C14": {
+        "num": 14,
+        "vo": ["Properties/C14.vo"],
+        "rule": "for each of 1500 (quick) / 4000 (thorough) random pairs of event sequences (up to 3+3 quick, 4+4 thorough; 1..3 keys, keyless events, timestamps over 4..12 values, "
+                "windows 0..5, 3 join conditions) ALL merges of the two arrival orders are run; every third merge additionally with watermark updates between arrivals (non-evicting and evicting); "
+                "non-trivial = at least one pair emitted",
+        "level_text": "Theorem for every join condition, window, number of events/keys and EVERY interleaving of the two streams' arrivals: the emitted pairs are a permutation of the reference join "
+                "(each pair exactly once), hence interleaving-independent. Proved by a buffer invariant over the op list. Watermark advances (re-scan, eviction) are covered by the Coq-defined monitor "
+                "Join.ok (emitted = reference join when nothing can have been evicted; duplicate-free subset otherwise) on the real StreamJoinNode, and by model-vs-code comparison of every emission.",
+        "level_note": "Trusted: Coq kernel; model of stream_join_node.rs (Inner/TimeWindow; closures as parameters; event ids unique); harness; extraction. Theorem is partial w.r.t. watermark updates (named "
+                "..._partial). StreamJoinManager routing not modelled. Axioms: none.",
+        "trusted_base": [],
+        "assumptions": ["event ids are unique per stream; window and timestamps in the code's own unit (duration.as_secs() vs raw timestamps)"],
+    },
     "C13": {
         "num": 13,
         "vo": ["Properties/C13.vo"],
